@@ -2,6 +2,8 @@
 from __future__ import annotations
 
 import itertools
+import json
+import zlib
 import time
 
 from .. import opcat_tensor as cat
@@ -20,18 +22,20 @@ def enumerate_specs(tier):
             if args.get("precise"):   # double-precision comparison with the real guard constants in place
                 specs.append({"op": name, "args": args, "variant": {"req": [1] * n, "dtype": "float64", "precise": True}})
                 continue
+            if args.get("xr"):        # a degenerate argument value: the gradient must stay finite (extended-real run)
+                specs.append({"op": name, "args": args, "variant": {"req": [1] * n, "xr": True}})
             masks = [m for m in itertools.product((1, 0), repeat=n) if any(m)]
             if tier == "quick" and n >= 2:
                 # all-on, plus each operand alone
                 masks = [m for m in masks if sum(m) in (1, n)]
             for m in masks:
                 specs.append({"op": name, "args": args, "variant": {"req": list(m)}})
-            ci = len(specs)
-            if ci % 4 == 0 and len(od.inputs(args)[0].shape) >= 2:     # first operand as a non-contiguous view
-                specs.append({"op": name, "args": args, "variant": {"req": [1] * n, "layout": "T" if ci % 8 == 0 else "S"}})
+            ci = zlib.crc32(json.dumps([name, args], sort_keys=True).encode())   # stable under additions to the catalogue
+            if ci % 2 == 0 and len(od.inputs(args)[0].shape) >= 2:     # first operand as a non-contiguous view
+                specs.append({"op": name, "args": args, "variant": {"req": [1] * n, "layout": "T" if ci % 4 == 0 else "S"}})
             if od.smooth_at_zero(args):              # an operand entry that is exactly 0
                 specs.append({"op": name, "args": args, "variant": {"req": [1] * n, "zero_first": True}})
-            if tier != "quick" or ci % 3 == 0:      # the same graph differentiated twice
+            if tier != "quick" or ci % 3 != 0:      # the same graph differentiated twice
                 specs.append({"op": name, "args": args, "variant": {"req": [1] * n, "twice": True}})
     return specs
 
